@@ -331,9 +331,11 @@ func genC13(r *rand.Rand, run int, tier string) *vm.Plan {
 	g := h.g
 	key := h.issuers[0]
 	auth := g.BlockFor(nil, 3, 2, 2)
+	// ambient facts: what requests typically bring; the token's block checks depend on them
+	ambient := g.Facts(5)
 	t := h.build(key, auth, nil)
 	for i := r.Intn(3); i > 0; i-- {
-		t = h.attenuate(t, g.BlockFor(auth.Facts, 2, 1, 2))
+		t = h.attenuate(t, g.BlockFor(append(append([]ref.Pred{}, auth.Facts...), ambient...), 2, 1, 2))
 	}
 	lim := &vm.Lim{MaxDurNs: []int64{2e6, 1e9}[r.Intn(2)]}
 	if r.Intn(5) == 0 {
@@ -350,12 +352,27 @@ func genC13(r *rand.Rand, run int, tier string) *vm.Plan {
 		} else {
 			content = g.AuthzFor(auth.Facts, 4, 2, 2, 3)
 		}
+		// each round brings its own subset of the ambient facts
+		have := map[string]bool{}
+		for _, f := range content.Facts {
+			have[f.Canon()] = true
+		}
+		for _, f := range ambient {
+			if r.Intn(2) == 0 && !have[f.Canon()] {
+				content.Facts = append(content.Facts, f)
+			}
+		}
 		var qs []ref.Rule
 		for i := r.Intn(3); i > 0; i-- {
 			qs = append(qs, g.QueryFrom(append(append([]ref.Pred{}, prev.Facts...), content.Facts...)))
 		}
 		name := fmt.Sprintf("round%d", rd)
 		h.add(vm.Op{K: "azadd", A: az, Az: &content})
+		if r.Intn(7) == 0 { // a round that is abandoned before it is evaluated
+			h.add(vm.Op{K: "azreset", A: az})
+			prev = content
+			continue
+		}
 		if r.Intn(6) == 0 {
 			h.add(vm.Op{K: "azquery", A: az, Qs: qs, Name: name})
 			h.add(vm.Op{K: "verify", A: t, KS: &vm.KeySel{Key: key}, Az: &content, Qs: qs, Lim: lim, Name: name, Flags: []string{"noauth"}})
